@@ -106,3 +106,17 @@ Print Assumptions C14_reiterate_run.
 Theorem C14_no_captured_mutation : Gen.SrcFacts.captured_mutations = [].
 Proof. exact StaticFacts.no_captured_mutation. Qed.
 Print Assumptions C14_no_captured_mutation.
+
+(* the regenerated tie: the wrapper closure of topK() of tree.go, translated from the Go AST on every run
+   (Gen/IterGen.v: the loop body as the consumer of the wrapped iterator, range_over of Model/GoTree.v), around an
+   iterator with the four properties seq_ok (which the scans of this library have: walk_seq_ok): the outer consumer is
+   called with the elements, and as often, as Model.Iter.run_bounded says; return at remaining == 0 and break after a
+   refused element are both "stopped". k is a Go uint *)
+From GoArt Require Import Model.Iter Model.PoolTree Model.GoTree Gen.IterGen Proofs.TranslateIterFacts.
+Theorem C14_regenerated_topK : forall (all bwd : (nat -> bool) -> ires) (bwd' : (nat -> bool) -> wres) k ans,
+  (0 < k)%N -> (k < 2 ^ 64)%N -> seq_ok bwd' -> (forall a, ires_abs (bwd a) = Some (bwd' a)) ->
+  exists how c acc, g_topK all bwd k ans = IDone how c acc /\
+    rev (map tabs acc) = delivered (run_bounded bwd' k ans) /\ c = calls (run_bounded bwd' k ans) /\
+    bounded_status how (status (run_bounded bwd' k ans)).
+Proof. exact gen_topK_eq. Qed.
+Print Assumptions C14_regenerated_topK.
